@@ -205,7 +205,7 @@ func (cx *c05ctx) verify(img crashImg, depth int) {
 		v.Close()
 	}()
 	r.Count("c05.image.verified")
-	r.State("%s/%s", cx.shape, img.label)
+	r.State("%s/%s", cx.shape, strings.SplitN(img.label, " fault=", 2)[0])
 	dbDir := filepath.Join(v.Dir, "dbs", cx.name)
 	newest, err := NewestLTX(dbDir)
 	if !r.Check(err == nil, oracle+".ltx", "%s: newest transaction file unreadable after recovery: %v", where, err) {
@@ -543,7 +543,7 @@ func c05Primary(r *Run, shape string, faulting, nested bool) {
 			}
 		}
 		h.closeConns()
-		cx.verify(crashImg{dir: final, label: "final-state", afterCommit: opOK && !exited && cr.committed}, 1)
+		cx.verify(crashImg{dir: final, label: "final-state fault=" + h.n.OS.FiredAt, afterCommit: opOK && !exited && cr.committed}, 1)
 		return
 	}
 	if !r.Check(!exited, "c05.exit", "LiteFS exited during a fault-free %s", shape) {
@@ -591,7 +591,7 @@ func c05AbandonTx(c *Conn, t *Tape, ref *Image) {
 		return
 	}
 	j := &jstate{nonce: 12345, origSize: ref.N()}
-	c.jf.Pwrite(0, c.journalHeader(j, false))
+	c.jwrite(0, c.journalHeader(j, false))
 	j.off = int64(c.SectorSize)
 	n := t.Range(1, int(min32(ref.N(), 4)))
 	var pgs []uint32
@@ -600,11 +600,11 @@ func c05AbandonTx(c *Conn, t *Tape, ref *Image) {
 		orig, _ := c.ReadPage(pg)
 		var b4 [4]byte
 		b4[0], b4[1], b4[2], b4[3] = byte(pg>>24), byte(pg>>16), byte(pg>>8), byte(pg)
-		c.jf.Pwrite(j.off, b4[:])
-		c.jf.Pwrite(j.off+4, orig)
+		c.jwrite(j.off, b4[:])
+		c.jwrite(j.off+4, orig)
 		ck := journalCksum(orig, j.nonce)
 		b4[0], b4[1], b4[2], b4[3] = byte(ck>>24), byte(ck>>16), byte(ck>>8), byte(ck)
-		c.jf.Pwrite(j.off+4+int64(c.PageSize), b4[:])
+		c.jwrite(j.off+4+int64(c.PageSize), b4[:])
 		j.off += int64(c.PageSize) + 8
 		j.nRec++
 		pgs = append(pgs, pg)
@@ -812,7 +812,7 @@ func c05Replica(r *Run, shape string, faulting, nested bool) {
 			}
 			final = img
 		}
-		cx.verify(crashImg{dir: final, label: "final-state"}, 1)
+		cx.verify(crashImg{dir: final, label: "final-state fault=" + rep.OS.FiredAt}, 1)
 		return
 	}
 	if !r.Check(!rep.Exited, "c05.exit", "replica exited during a fault-free %s", shape) {
